@@ -24,6 +24,28 @@ EpochNext(ep, now) ==
   ELSE ep
 Ticked(s, t, id) == id \in EpochIds(s) /\ id \in EpochIds(t) /\ t.epochs[id].num > s.epochs[id].num
 
+\* stablestake's borrow interest rate as a deterministic specification (interest_rate.go, evaluated by the begin blocker at
+\* every epoch start, BEFORE any module that touches the vault runs): the rate moves towards healthGainFactor * utilisation
+\* by at most the configured increase / decrease per epoch and is clamped to [min, max].  Dec arithmetic as the SDK does it:
+\* Quo truncates the 36-digit quotient and then rounds the last 18 digits half-to-even, symmetrically for negative values.
+SgnTrunc(a, b) == IF a \succeq Zero THEN a // b ELSE Zero -- ((Zero -- a) // b)
+RHE(a, b) == LET q == a // b  r == a %% b IN IF (r ** N(2)) \prec b THEN q ELSE IF (r ** N(2)) \succ b THEN q ++ One ELSE IF q %% N(2) = Zero THEN q ELSE q ++ One
+SgnRound(a, b) == IF a \succeq Zero THEN RHE(a, b) ELSE Zero -- RHE(Zero -- a, b)
+RateNext(s) ==
+  LET tv == s.stable.totalValue
+      prev == s.stable.interestRate
+      borrowed == tv -- VaultCash(s)
+      target == SgnRound(SgnTrunc((s.stable.hgf ** borrowed) ** E18, tv), E18)
+      change == target -- prev
+      moved == IF change \succeq (Zero -- s.stable.rateDec) /\ change \preceq s.stable.rateInc THEN target
+               ELSE IF change \succ s.stable.rateInc THEN prev ++ s.stable.rateInc
+               ELSE prev -- s.stable.rateDec
+  IN IF tv = Zero THEN prev
+     ELSE IF moved \succ s.stable.rateMin /\ moved \prec s.stable.rateMax THEN moved
+     ELSE IF moved \preceq s.stable.rateMin THEN s.stable.rateMin
+     ELSE s.stable.rateMax
+RateDue(s, t) == LET len == IF s.stable.epochLength \preceq Zero THEN One ELSE s.stable.epochLength IN N(t.chain.h) %% len = Zero
+
 ExtStepChecks(k, e, s, t) ==
   LET ids == EpochIds(s) \cap EpochIds(t)
       now == t.chain.t
@@ -47,5 +69,12 @@ ExtStepChecks(k, e, s, t) ==
        Chk("EXT", "EXT.burner.burns_exactly_the_zero_address_holdings_at_its_epoch_end", ds # {}, badBurn = {}, Bad(badBurn)) }
      \cup (IF k \in {"Tx", "Begin"} THEN
             { Chk("EXT", "EXT.rewards.touched_record_is_checkpointed_against_the_current_accumulator", touched # {}, badCp = {}, Bad(badCp)) }
+          ELSE {})
+     \cup (IF "hgf" \in DOMAIN s.stable /\ "hgf" \in DOMAIN t.stable THEN
+            { Chk("EXT", "EXT.stablestake.interest_rate_follows_the_utilisation_rule", k = "Begin" /\ RateDue(s, t),
+                  IF k = "Begin" THEN t.stable.interestRate = (IF RateDue(s, t) THEN RateNext(s) ELSE s.stable.interestRate)
+                  ELSE IF k = "Admin" THEN TRUE
+                  ELSE t.stable.interestRate = s.stable.interestRate,
+                  Str(t.stable.interestRate)) }
           ELSE {})
 =============================================================================
